@@ -270,7 +270,9 @@ impl<'a> Tr<'a> {
                 if let (Some(base), Member::Named(cell), Expr::Path(_)) = (path_ident(&f.base), &f.member, &*f.base) {
                     let bt = self.vars.get(&base).cloned().unwrap_or_default();
                     let sname = bt.strip_prefix("Gen.").unwrap_or("").to_string();
-                    let dropped = self.reg.struct_fields.get(&sname).map(|m| !m.contains_key(&cell.to_string())).unwrap_or(false);
+                    // the cell is either absent from the generated structure or (since the writer state machine
+                    // needs `data_start`) present as its `u64` value; `.store(..)` exists on the atomic cell only
+                    let dropped = self.reg.struct_fields.get(&sname).map(|m| m.get(&cell.to_string()).map(|t| t == "UInt64").unwrap_or(true)).unwrap_or(false);
                     if dropped && !self.mut_vars.contains(&base) {
                         self.expect = Some("UInt64".into());
                         let v = self.expr(&m.args[0])?;
